@@ -151,13 +151,16 @@ func ExecSched(sc sim.Script) *sim.Outcome {
 	}
 	nt := len(s.Tasks)
 	hist := make([][]porcupine.Operation, nt)
+	opCount := make([]map[string]int64, nt) // per task: which operations ran (merged into the stats after the run)
 	fns := make([]func(), nt)
 	est := 0
 	for ti := range s.Tasks {
 		ti := ti
 		est += 60 * len(s.Tasks[ti])
+		opCount[ti] = map[string]int64{}
 		fns[ti] = func() {
 			for oi, op := range s.Tasks[ti] {
+				opCount[ti][op.K]++
 				call := simrt.Stamp()
 				var in hin
 				var out hout
@@ -256,6 +259,11 @@ func ExecSched(sc sim.Script) *sim.Outcome {
 		plan.Strategy = "replay"
 	}
 	res := sched.Run(plan, est, 400000, fns...)
+	for _, m := range opCount {
+		for k, n := range m {
+			w.stats.Add("op.task-"+k, n)
+		}
+	}
 	w.stats.Add("sim.steps", int64(res.Steps))
 	w.stats.Add("sched.switches", int64(res.Switches))
 	w.stats.Add("sched.decisions", int64(res.Decisions))
